@@ -50,7 +50,8 @@ NextStrCopy ==
      \E slen \in (IF HasSlen(st.f) THEN Sizes \cup {K + 1} ELSE {0}),
         dl \in (IF HasDstr(st.f) THEN 0..2 ELSE {0}), dterm \in (IF HasDstr(st.f) THEN BOOLEAN ELSE {FALSE}),
         flags \in (IF st.f \in StpFns THEN {0, 1} ELSE {0}) :
-     \E dbos \in BosChoices(dmax), sbos \in (IF HasSlen(st.f) \/ st.f \in StpFns THEN BosChoices(slen) ELSE {UNK}) :
+     \E dbos \in BosChoices(dmax), sbos \in (IF st.f = "stpcpy_s" THEN BosChoices(sl + (IF sterm THEN 1 ELSE 0))      \* no slen: the size of the object that holds the string
+                                             ELSE IF HasSlen(st.f) \/ st.f \in StpFns THEN BosChoices(slen) ELSE {UNK}) :
        LET d  == st.d
            a0 == IF d # NULLP /\ (dterm \/ dl > 0) /\ d + dl <= N THEN Place(Blank, d, DstStr(dl), dterm) ELSE Blank
            a  == IF s # NULLP /\ s + sl <= N + (IF sterm THEN 0 ELSE 1) THEN Place(a0, s, SrcStr(sl), sterm) ELSE a0
